@@ -66,7 +66,17 @@ func num(s string) (interface{}, error) {
 	if strings.ContainsRune(s, '.') {
 		return strconv.ParseFloat(s, 64)
 	}
-	return strconv.ParseInt(s, 10, 64)
+	i, err := strconv.ParseInt(s, 10, 64)
+	if err != nil {
+		// the upper half of uint64, or a whole number beyond 64 bits
+		if u, uerr := strconv.ParseUint(s, 10, 64); uerr == nil {
+			return u, nil
+		}
+		if f, ferr := strconv.ParseFloat(s, 64); ferr == nil {
+			return f, nil
+		}
+	}
+	return i, err
 }
 
 func literal(s string) interface{} {
